@@ -50,7 +50,8 @@ Definition site_pair_added (cur : cstate) : list cstate :=          (* conn_chec
 Definition site_triggered (cur : cstate) : list cstate :=           (* priv_schedule_triggered_check *)
   if cs_eqb cur FAILED then [CONNECTING] else if cs_eqb cur READY then [CONNECTED] else [].
 Definition site_nominated_success (cur : cstate) : list cstate :=   (* conncheck.c nominated success response *)
-  if cs_eqb cur READY then [] else [CONNECTED].
+  (if cs_lt cur CONNECTING || cs_eqb cur FAILED then [CONNECTING] else []) ++
+  (let c1 := if cs_lt cur CONNECTING || cs_eqb cur FAILED then CONNECTING else cur in if cs_eqb c1 READY then [] else [CONNECTED]).
 Definition site_prune_socket (cur : cstate) : list cstate :=
   if cs_eqb cur READY then [FAILED] else if cs_eqb cur CONNECTED then [CONNECTING] else [].
 Definition site_gather (cur : cstate) : list cstate := if cs_eqb cur DISCONNECTED || cs_eqb cur FAILED then [GATHERING] else [].
@@ -58,15 +59,18 @@ Definition site_gather (cur : cstate) : list cstate := if cs_eqb cur DISCONNECTE
 (* fingerprint of the call-site inventory: (file, requested state) in source order *)
 Local Open Scope string_scope.
 Definition expected_sites : list (string * string) := [
- ("agent/agent.c", "NICE_COMPONENT_STATE_FAILED"); ("agent/agent.c", "NICE_COMPONENT_STATE_GATHERING"); ("agent/agent.c", "NICE_COMPONENT_STATE_FAILED");
- ("agent/agent.c", "NICE_COMPONENT_STATE_CONNECTING"); ("agent/agent.c", "NICE_COMPONENT_STATE_CONNECTED"); ("agent/agent.c", "NICE_COMPONENT_STATE_READY");
- ("agent/agent.c", "NICE_COMPONENT_STATE_CONNECTING"); ("agent/agent.c", "NICE_COMPONENT_STATE_CONNECTED"); ("agent/agent.c", "NICE_COMPONENT_STATE_READY");
- ("agent/conncheck.c", "NICE_COMPONENT_STATE_FAILED"); ("agent/conncheck.c", "/* component-id */ NICE_COMPONENT_STATE_FAILED");
- ("agent/conncheck.c", "NICE_COMPONENT_STATE_CONNECTING"); ("agent/conncheck.c", "NICE_COMPONENT_STATE_CONNECTED"); ("agent/conncheck.c", "NICE_COMPONENT_STATE_READY");
+ ("agent/agent.c", "NICE_COMPONENT_STATE_FAILED"); ("agent/agent.c", "NICE_COMPONENT_STATE_GATHERING");
+ ("agent/agent.c", "NICE_COMPONENT_STATE_FAILED"); ("agent/agent.c", "NICE_COMPONENT_STATE_CONNECTING");
+ ("agent/agent.c", "NICE_COMPONENT_STATE_CONNECTED"); ("agent/agent.c", "NICE_COMPONENT_STATE_READY");
+ ("agent/agent.c", "NICE_COMPONENT_STATE_CONNECTING"); ("agent/agent.c", "NICE_COMPONENT_STATE_CONNECTED");
+ ("agent/agent.c", "NICE_COMPONENT_STATE_READY"); ("agent/conncheck.c", "NICE_COMPONENT_STATE_FAILED");
+ ("agent/conncheck.c", "/* component-id */ NICE_COMPONENT_STATE_FAILED"); ("agent/conncheck.c", "NICE_COMPONENT_STATE_CONNECTING");
+ ("agent/conncheck.c", "NICE_COMPONENT_STATE_CONNECTED"); ("agent/conncheck.c", "NICE_COMPONENT_STATE_READY");
  ("agent/conncheck.c", "NICE_COMPONENT_STATE_CONNECTING"); ("agent/conncheck.c", "NICE_COMPONENT_STATE_CONNECTED");
  ("agent/conncheck.c", "NICE_COMPONENT_STATE_CONNECTED"); ("agent/conncheck.c", "NICE_COMPONENT_STATE_CONNECTING");
  ("agent/conncheck.c", "NICE_COMPONENT_STATE_CONNECTING"); ("agent/conncheck.c", "NICE_COMPONENT_STATE_CONNECTED");
- ("agent/conncheck.c", "NICE_COMPONENT_STATE_CONNECTED"); ("agent/conncheck.c", "NICE_COMPONENT_STATE_FAILED");
+ ("agent/conncheck.c", "NICE_COMPONENT_STATE_CONNECTING"); ("agent/conncheck.c", "NICE_COMPONENT_STATE_CONNECTED");
+ ("agent/conncheck.c", "NICE_COMPONENT_STATE_FAILED"); ("agent/conncheck.c", "NICE_COMPONENT_STATE_FAILED");
+ ("agent/conncheck.c", "NICE_COMPONENT_STATE_CONNECTING"); ("agent/conncheck.c", "NICE_COMPONENT_STATE_FAILED");
  ("agent/conncheck.c", "NICE_COMPONENT_STATE_FAILED"); ("agent/conncheck.c", "NICE_COMPONENT_STATE_CONNECTING");
- ("agent/conncheck.c", "NICE_COMPONENT_STATE_FAILED"); ("agent/conncheck.c", "NICE_COMPONENT_STATE_FAILED"); ("agent/conncheck.c", "NICE_COMPONENT_STATE_CONNECTING");
  ("agent/stream.c", "NICE_COMPONENT_STATE_GATHERING")].
